@@ -39,8 +39,8 @@ type Conn struct {
 	WriteErrAfter int
 	// OnRead, if set, is called (outside the lock) before each Read is served with
 	// the number of input bytes delivered so far.
-	OnRead    func(delivered int)
-	delivered int
+	OnRead                          func(delivered int)
+	delivered                       int
 	readAfterClose, writeAfterClose int
 }
 
